@@ -94,6 +94,11 @@ def main():
             raise vlib.MachineryError("GPStore (reader config) violates %s on the model" % r.violation)
         vlib.require(r.coverage.get("MCReader", (0, 0))[0] > 0, "vacuous: reader never stepped")
         run.add_tlc(r, "GPStoreMC_C30")
+        ra = vlib.tlc("store", "GPStoreMC", "GPStoreMC_C30.cfg", scratch=sc, timeout=2400, consts="CONSTANT ReadAll = TRUE")
+        vlib.expect_tlc_ok(ra, "GPStoreMC_C30/readall")
+        if ra.violation:
+            raise vlib.MachineryError("GPStore (reader config, read-all mode) violates %s on the model" % ra.violation)
+        run.add_tlc(ra, "GPStoreMC_C30/readall")
         # negative control of the model: without the known-finding exemption the reader error must be found
         n = vlib.tlc("store", "GPStoreMC", "GPStoreMC_C30.cfg", scratch=sc, timeout=600,
                      consts="INVARIANT ReaderNoError")
